@@ -1,3 +1,39 @@
 (* C14 shares the REPP correspondence cases of C13 (maps and tokens are
-   compared there). *)
+   compared there) and adds the YY serialisation of token lattices. *)
+From Coq Require Import List NArith ZArith Bool.
 From PyD Require Export Corr.C13.
+From PyD Require Export Model.YY.
+Import ListNotations.
+
+Definition tok_eqb (a b : yytok) : bool :=
+  Z.eqb (y_id a) (y_id b) && Z.eqb (y_start a) (y_start b) && Z.eqb (y_end a) (y_end b) &&
+  option_eqb (fun p q => Z.eqb (fst p) (fst q) && Z.eqb (snd p) (snd q)) (y_lnk a) (y_lnk b) &&
+  list_eqb Z.eqb (y_paths a) (y_paths b) && str_eqb (y_form a) (y_form b) &&
+  option_eqb str_eqb (y_surface a) (y_surface b) &&
+  Z.eqb (y_ipos a) (y_ipos b) && list_eqb str_eqb (y_lrules a) (y_lrules b).
+
+(* what from_string did: the tokens, or a ValueError *)
+Inductive yobs := OToks (l : list yytok) | OValueError.
+
+Definition yres_matches (r : yres) (o : yobs) : bool :=
+  match r, o with
+  | YOk l, OToks l' => list_eqb tok_eqb l l'
+  | YValueError, OValueError => true
+  | YUnmodelled, _ => true                 (* part-of-speech tags: outside the model *)
+  | _, _ => false
+  end.
+
+Inductive case14 :=
+| CR (c : Corr.C13.case)
+| CYYPrint (l : list yytok) (out : str)
+| CYYParse (s : str) (out : yobs).
+
+Definition check_case14 (c : case14) : bool :=
+  match c with
+  | CR c' => Corr.C13.check_case c'
+  | CYYPrint l out => str_eqb (print_lattice l) out
+  | CYYParse s out => yres_matches (parse_lattice s) out
+  end.
+
+Notation case := case14.
+Notation check_case := check_case14.
